@@ -272,7 +272,8 @@ def run_chunking(kind, enc, header, n):
             info['note'] = 'chunked result has a different length than the one-shot result'
         return r, info
 
-    return common.explore(fn, 'chunking(%s,%s,header=%s,n=%d)' % (kind, enc, header, n), path_timeout_s=120.0)
+    return common.explore(fn, 'chunking(%s,%s,header=%s,n=%d)' % (kind, enc, header, n), path_timeout_s=120.0,
+                          realise_cap=256)
 
 
 def jobs(tier):
